@@ -18,10 +18,32 @@ def prepare(_):
     import a5
     import copy
     from a5.core import cell as _cell0
+    def _snapshot(obj, depth=0):
+        # attribute by attribute: what cannot be copied (a lock, say) is kept by reference, objects holding such things are descended into
+        snap = {}
+        for name, v in vars(obj).items():
+            try:
+                snap[name] = ('copy', copy.deepcopy(v))
+            except Exception:
+                snap[name] = ('object', v, _snapshot(v, depth + 1)) if (hasattr(v, '__dict__') and depth < 3) else ('ref', v)
+        return snap
+
+    def _restore(obj, snap):
+        new = {}
+        for name, item in snap.items():
+            if item[0] == 'copy':
+                new[name] = copy.deepcopy(item[1])
+            else:
+                new[name] = item[1]
+                if item[0] == 'object':
+                    _restore(item[1], item[2])
+        vars(obj).clear()
+        vars(obj).update(new)
+
     try:
-        _PRISTINE = {'dodecahedron': copy.deepcopy(vars(_cell0._dodecahedron))}     # before the first library call of this process
+        _PRISTINE = _snapshot(_cell0._dodecahedron)     # before the first library call of this process
     except Exception:
-        _PRISTINE = {}
+        _PRISTINE = None
     from a5.core.origin import origins
     from a5.core.coordinate_transforms import to_cartesian, to_spherical, to_lonlat
     # a face-edge midpoint: normalised sum of two adjacent face centres (faces 3 and its nearest neighbour)
@@ -48,11 +70,9 @@ def prepare(_):
         # library call of this process: no assumption about which caches exist or what shape they have), then fn runs and the filled
         # slots are read off; if the object cannot be restored or read this way the search degrades to the default constants below
         d = _cell._dodecahedron
-        try:
-            vars(d).clear()
-            vars(d).update(copy.deepcopy(_PRISTINE['dodecahedron']))
-        except Exception:
+        if _PRISTINE is None:
             return frozenset()
+        _restore(d, _PRISTINE)
         fn()
         try:
             ft = {('face', i) for i, t in enumerate(d.face_triangles) if t is not None}
